@@ -101,6 +101,9 @@ where
     let cv = Condvar::new();
     let execs = AtomicU64::new(0);
     let maxp = AtomicU64::new(0);
+    // nodes of the schedule tree (distinct schedule prefixes reached) and executions with a real choice
+    let tree_nodes = AtomicU64::new(1);
+    let nontrivial = AtomicU64::new(0);
     let capped = AtomicBool::new(false);
     let diverged: Mutex<Option<String>> = Mutex::new(None);
     std::thread::scope(|sc| {
@@ -141,6 +144,13 @@ where
                 }
                 let e = execs.fetch_add(1, Ordering::Relaxed) + 1;
                 maxp.fetch_max(ch.trace.len() as u64, Ordering::Relaxed);
+                tree_nodes.fetch_add(ch.trace.len().saturating_sub(plen.saturating_sub(1).min(ch.trace.len())) as u64, Ordering::Relaxed);
+                if ch.trace.iter().any(|t| t.1 > 1) {
+                    nontrivial.fetch_add(1, Ordering::Relaxed);
+                }
+                if e <= 2 {
+                    run.sample(json!({"search": opts.label, "schedule": ch.describe()}));
+                }
                 if ch.pos < plen {
                     *diverged.lock().unwrap() =
                         Some(format!("execution ended after {} points but its prefix has {}", ch.pos, plen));
@@ -193,9 +203,13 @@ where
         bound: opts.bound,
         capped: capped.load(Ordering::Relaxed) && remaining > 0,
     };
+    // states = distinct schedule prefixes reached (nodes of the explored schedule tree), transitions = its edges
+    let nodes = tree_nodes.load(Ordering::Relaxed);
     run.count("schedules", st.executions);
-    run.count("transitions", st.executions);
+    run.count("states", nodes);
+    run.count("transitions", nodes.saturating_sub(1));
     run.count("traces_validated_against_impl", st.executions);
+    run.add_cases(st.executions, nontrivial.load(Ordering::Relaxed));
     run.extra(
         &format!("sched:{}", opts.label),
         json!({"executions": st.executions, "deviation_bound_completed": if st.capped { json!(null) } else { json!(st.bound) },
@@ -213,9 +227,9 @@ where
 
 /// Single-threaded variant of `explore` for callers that parallelise over inputs themselves.
 /// Returns (executions, max choice points). A replay divergence panics (machinery error).
-pub fn explore_seq(bound: usize, mut body: impl FnMut(&mut Chooser)) -> (u64, u64) {
+pub fn explore_seq(bound: usize, mut body: impl FnMut(&mut Chooser)) -> (u64, u64, u64) {
     let mut stack: Vec<(Vec<u32>, Vec<u32>)> = vec![(vec![], vec![])];
-    let (mut execs, mut maxp) = (0u64, 0u64);
+    let (mut execs, mut maxp, mut nodes) = (0u64, 0u64, 1u64);
     while let Some((prefix, prefix_n)) = stack.pop() {
         let plen = prefix.len();
         let mut ch = Chooser::new(prefix, prefix_n);
@@ -225,6 +239,7 @@ pub fn explore_seq(bound: usize, mut body: impl FnMut(&mut Chooser)) -> (u64, u6
         }
         execs += 1;
         maxp = maxp.max(ch.trace.len() as u64);
+        nodes += ch.trace.len().saturating_sub(plen.saturating_sub(1).min(ch.trace.len())) as u64;
         let choices = ch.choices();
         let ns: Vec<u32> = ch.trace.iter().map(|t| t.1).collect();
         let mut dev = choices[..plen.min(choices.len())].iter().filter(|c| **c != 0).count();
@@ -245,5 +260,5 @@ pub fn explore_seq(bound: usize, mut body: impl FnMut(&mut Chooser)) -> (u64, u6
             stack.push(it);
         }
     }
-    (execs, maxp)
+    (execs, maxp, nodes)
 }
